@@ -29,7 +29,7 @@ use unicode_xid::UnicodeXID;
 
 /// Coq list literal, chunked so that no literal has more than 400 elements (deep list notations
 /// overflow coqc's stack).
-fn coq_list(items: &[String]) -> String {
+pub fn coq_list(items: &[String]) -> String {
     if items.len() <= 400 {
         return format!("[{}]", items.join(";"));
     }
@@ -38,12 +38,12 @@ fn coq_list(items: &[String]) -> String {
 }
 
 /// a span as one primitive int: start * 2^31 + end
-fn sp(s: &Span) -> String {
+pub fn sp(s: &Span) -> String {
     assert!(s.start() < (1 << 31) && s.end() < (1 << 31));
     (((s.start() as u64) << 31) | s.end() as u64).to_string()
 }
 
-fn delim(d: Delimiter) -> u32 {
+pub fn delim(d: Delimiter) -> u32 {
     match d {
         Delimiter::Parenthesis => 0,
         Delimiter::Brace => 1,
@@ -51,7 +51,7 @@ fn delim(d: Delimiter) -> u32 {
     }
 }
 
-fn int_ty(t: &LitIntType) -> u32 {
+pub fn int_ty(t: &LitIntType) -> u32 {
     match t {
         LitIntType::U8 => 0,
         LitIntType::U16 => 1,
@@ -65,7 +65,7 @@ fn int_ty(t: &LitIntType) -> u32 {
     }
 }
 
-fn flatten(ts: &CommentedTokenStream, out: &mut Vec<String>) {
+pub fn flatten(ts: &CommentedTokenStream, out: &mut Vec<String>) {
     for tt in ts.token_trees() {
         match tt {
             CommentedTokenTree::Comment(c) => {
@@ -114,7 +114,7 @@ fn flatten(ts: &CommentedTokenStream, out: &mut Vec<String>) {
     }
 }
 
-fn lex_kind(k: &LexErrorKind) -> u32 {
+pub fn lex_kind(k: &LexErrorKind) -> u32 {
     use LexErrorKind::*;
     match k {
         UnclosedMultilineComment { .. } => 1,
@@ -139,7 +139,7 @@ fn lex_kind(k: &LexErrorKind) -> u32 {
     }
 }
 
-fn lex_errs(errors: &[CompileError]) -> String {
+pub fn lex_errs(errors: &[CompileError]) -> String {
     let v: Vec<String> = errors
         .iter()
         .map(|e| match e {
@@ -150,7 +150,7 @@ fn lex_errs(errors: &[CompileError]) -> String {
     coq_list(&v)
 }
 
-fn ascii_selfcheck() -> String {
+pub fn ascii_selfcheck() -> String {
     // must agree with ascii_ws / ascii_xid_start / ascii_xid_continue in coq/C16/Model.v
     for c in 0u32..128 {
         let ch = char::from_u32(c).unwrap();
@@ -167,6 +167,48 @@ fn ascii_selfcheck() -> String {
     "ascii-ok".to_string()
 }
 
+/// scalars (packed), class table and the real lexer's flattened stream of `text`, as Coq terms
+pub fn dump_text(text: &str) -> (String, String, String) {
+    let mut scal: Vec<u64> = Vec::new();
+    let mut ucls: Vec<(u32, u32)> = Vec::new();
+    for ch in text.chars() {
+        scal.push(ch as u64 + 1);
+        if !ch.is_ascii() && !ucls.iter().any(|(c, _)| *c == ch as u32) {
+            let bits = (ch.is_whitespace() as u32) | ((ch.is_xid_start() as u32) << 1) | ((ch.is_xid_continue() as u32) << 2);
+            ucls.push((ch as u32, bits));
+        }
+    }
+    // three scalars per primitive int, (c+1) in 21-bit fields, first in the low bits
+    let scal_items: Vec<String> = scal
+        .chunks(3)
+        .map(|c| (c[0] | (c.get(1).copied().unwrap_or(0) << 21) | (c.get(2).copied().unwrap_or(0) << 42)).to_string())
+        .collect();
+    let scal = coq_list(&scal_items);
+    let ucls_s = format!("[{}]", ucls.iter().map(|(c, b)| format!("({},{})", c, b)).collect::<Vec<_>>().join(";"));
+
+    // ---- lexer
+    let lex = guarded(|| {
+        let handler = Handler::default();
+        let src: Source = text.into();
+        let r = sway_parse::lex_commented(&handler, src, 0, text.len(), &None);
+        let (errors, _w, _i) = handler.consume();
+        match r {
+            Ok(ts) => {
+                let mut toks = Vec::new();
+                flatten(&ts, &mut toks);
+                format!("XLexOk {} {} {}", coq_list(&toks), sp(&ts.span()), lex_errs(&errors))
+            }
+            Err(_) => format!("XLexErr {}", lex_errs(&errors)),
+        }
+    });
+    let lex_s = match lex {
+        Ok(s) => s,
+        Err(_) => "XLexPanic".to_string(),
+    };
+
+    (scal, ucls_s, lex_s)
+}
+
 fn main() {
     quiet_panics();
     let stdin = std::io::stdin();
@@ -181,42 +223,7 @@ fn main() {
         }
         let bytes = if line == "-" { vec![] } else { hex_decode(line) };
         let text = String::from_utf8(bytes).expect("case is not valid UTF-8");
-        let mut scal: Vec<u64> = Vec::new();
-        let mut ucls: Vec<(u32, u32)> = Vec::new();
-        for ch in text.chars() {
-            scal.push(ch as u64 + 1);
-            if !ch.is_ascii() && !ucls.iter().any(|(c, _)| *c == ch as u32) {
-                let bits = (ch.is_whitespace() as u32) | ((ch.is_xid_start() as u32) << 1) | ((ch.is_xid_continue() as u32) << 2);
-                ucls.push((ch as u32, bits));
-            }
-        }
-        // three scalars per primitive int, (c+1) in 21-bit fields, first in the low bits
-        let scal_items: Vec<String> = scal
-            .chunks(3)
-            .map(|c| (c[0] | (c.get(1).copied().unwrap_or(0) << 21) | (c.get(2).copied().unwrap_or(0) << 42)).to_string())
-            .collect();
-        let scal = coq_list(&scal_items);
-        let ucls_s = format!("[{}]", ucls.iter().map(|(c, b)| format!("({},{})", c, b)).collect::<Vec<_>>().join(";"));
-
-        // ---- lexer
-        let lex = guarded(|| {
-            let handler = Handler::default();
-            let src: Source = text.as_str().into();
-            let r = sway_parse::lex_commented(&handler, src, 0, text.len(), &None);
-            let (errors, _w, _i) = handler.consume();
-            match r {
-                Ok(ts) => {
-                    let mut toks = Vec::new();
-                    flatten(&ts, &mut toks);
-                    format!("XLexOk {} {} {}", coq_list(&toks), sp(&ts.span()), lex_errs(&errors))
-                }
-                Err(_) => format!("XLexErr {}", lex_errs(&errors)),
-            }
-        });
-        let lex_s = match lex {
-            Ok(s) => s,
-            Err(_) => "XLexPanic".to_string(),
-        };
+        let (scal, ucls_s, lex_s) = dump_text(&text);
 
         // ---- parser (lexer + parser through the public entry point)
         let parse = guarded(|| {
